@@ -53,6 +53,33 @@ def readPointsLastLoop (g sk : G) : Nat → List Char → List (Int × List Val)
       else none
     | _ => none
 
+/-- the same loop with the two ways of not terminating made explicit: `spin` = `phrase_parse` returned true
+without moving `first` (the C++ `do … while(r && first != last)` would then repeat the same call forever),
+`fuel` = the model's iteration bound ran out.  `Lemmas/ImportCsv.lean` proves that neither occurs for the
+record grammars and that `readPointsLastLoop` is this loop. -/
+inductive LoopRes where
+  | done (pts : List (Int × List Val))
+  | error
+  | spin
+  | fuel
+  deriving Repr, DecidableEq
+
+def readPointsLastLoopR (g sk : G) : Nat → List Char → List (Int × List Val) → LoopRes
+  | 0, _, _ => .fuel
+  | f+1, s, acc =>
+    match phraseParse g sk s with
+    | .ok rest evs =>
+      let acc := (labelOf evs, valsOf evs) :: acc
+      if rest.isEmpty then .done acc.reverse
+      else if rest.length < s.length then readPointsLastLoopR g sk f rest acc
+      else .spin
+    | .fail => .error
+    | .hang => .spin
+
+def LoopRes.toOption : LoopRes → Option (List (Int × List Val))
+  | .done pts => some pts
+  | _ => none
+
 def readPointsLast (bytes : List Char) (sep comment : Char) : Option (List (Int × List Val)) :=
   let g := if wsSep sep then pointLastWs else pointLastSep sep
   readPointsLastLoop g (csvSkipper comment) (bytes.length + 1) bytes []
